@@ -445,6 +445,21 @@ EXTRA6 = {
         "with negated log-abs-dets for the whole linear and quadratic splines, all parameters.",
  "C20": "ADDED: the translator checks that logabsdet returns torch.slogdet's log-magnitude unchanged (C20_logabsdet_is_the_log_magnitude_of_slogdet).",
 }
+EXTRA7 = {
+ "C04": "Flows over a MADE mixture base (3 and 4 unequal components) are compared with their integrated density by a KS statistic (50000 draws).",
+ "C05": "One draw per context row must leave the context, mean() and the returned log-probability intact.",
+ "C06": "The mixture log-density is recomputed from the network outputs per feature, also for inputs with an extra leading batch dimension.",
+ "C07": "Masks of 7-11 features with irregularly spaced sides are part of the exact correspondence and of the perturbation experiment.",
+ "C08": "The parts are also handed over as tuple / generator / iterator / map / reversed objects.",
+ "C09": "ADDED: the unconstrained linear and quadratic splines are strictly increasing bijections of the real line and the unconstrained "
+        "cubic forward map is strictly increasing on the line (C09_*_unconstrained_*); the tails wrappers are also run on column-major batches.",
+ "C12": "A float32 pass with one outlier row (size 1e6 on all / odd / even features) checks the other rows against single-row evaluation.",
+ "C15": "The state dict is also loaded as a plain dict without _metadata; LU layers with 5 features / 4 channels are included.",
+ "C16": "Parameters collected before the first training call must still be the model's parameters afterwards and receive gradients.",
+ "C18": "A ConditionalDiagonalNormal without encoder (parameters are views of the caller's context) is sampled in batches.",
+ "C19": "The unconstrained spline functions are run in float32 at tail bounds 5-50.",
+ "C20": "A list passed as the shape argument of split_leading_dim must be unchanged and reusable.",
+}
 EXTRA5 = {
  "C01": "Every catalogue transform is also checked after it was evaluated and then given another checkpoint through load_state_dict.",
  "C03": "The one-dimensional flows are integrated once more as restored models (evaluated, then loaded with a perturbed state dict); "
@@ -471,6 +486,8 @@ for _pid, _t in EXTRA.items():
 for _pid, _t in EXTRA5.items():
     CLAIMED[_pid]["text"] += " " + _t
 for _pid, _t in EXTRA6.items():
+    CLAIMED[_pid]["text"] += " " + _t
+for _pid, _t in EXTRA7.items():
     CLAIMED[_pid]["text"] += " " + _t
 for _pid, _t in EXTRA4.items():
     CLAIMED[_pid]["text"] += " " + _t
